@@ -1,7 +1,7 @@
 PROPERTY = "C15"
 LEVEL = "proof"
 LEAN_MODULES = ["CifModel.Props.C15"]
-REQUIRED = ["CifModel.C15_skip_depth_balanced", "CifModel.C15_skip_depth_nonneg", "CifModel.C15_skip_depth_cif", "CifModel.C15_stop_is_last", "CifModel.C15_end_ok", "CifModel.C15_positive_aborts", "CifModel.C15_skip_opens_region", "CifModel.C15_skipped_region_silent", "CifModel.C15_syntax_only_same_log", "CifModel.C15_value_mirror", "CifModel.C15_all_continue_mirror", "CifModel.C15_all_continue_mirror_parseCB", "CifModel.C15_result_nonneg", "CifModel.C15_positive_aborts_local",
+REQUIRED = ["CifModel.C15_skip_depth_balanced", "CifModel.C15_skip_depth_nonneg", "CifModel.C15_skip_depth_cif", "CifModel.C15_stop_is_last", "CifModel.C15_end_ok", "CifModel.C15_positive_aborts", "CifModel.C15_skip_opens_region", "CifModel.C15_skipped_region_silent", "CifModel.C15_syntax_only_same_log", "CifModel.C15_value_mirror", "CifModel.C15_all_continue_mirror", "CifModel.C15_all_continue_mirror_parseCB", "CifModel.C15_stored_is_structural", "CifModel.C15_result_nonneg", "CifModel.C15_positive_aborts_local",
             "CifModel.C15_loop_start_local", "CifModel.C15_cex_loop_start_pinned", "CifModel.C15_loop_start_code_returned"]
 GEN = ["ErrCodes"]
 FAMILIES = ["pcb"]
@@ -22,10 +22,11 @@ ASSUMPTIONS = [
     "default parse options (max_frame_depth clamps to 1: one level of save frames)",
 ]
 PARTIAL = [
-    "C15_skip_semantics is proved as C15_skip_opens_region (a SKIP answer at any start site puts the element's content / its "
-    "following siblings at skip_depth > 0, the element itself is not stored) + C15_skipped_region_silent (a production "
-    "entered at skip_depth > 0 makes no handler / data-name / keyword callback and stores nothing); the clause 'everything "
-    "else is stored as in an unfiltered parse' is only stated (C15_skip_semantics_rest_full) — correspondence + oracle",
+    "C15_skip_semantics: proved are C15_skip_opens_region + C15_skipped_region_silent (all token sequences) and "
+    "C15_stored_is_structural (for well-formed documents and skip-only programs the parse logs and stores exactly what the "
+    "structural interpreter kDoc does on the document tree). The remaining clause 'stored = denote of the document with the "
+    "bypassed sub-trees removed' is STATED (C15_skip_semantics_rest_full over Spec.Doc.prunedDoc) but not proved; it is "
+    "kernel-checked (decide) for all single and many double deviations on two documents and checked by the strict pcb oracle",
     "C15_syntax_only_same_log is proved for handler programs that do not look at the (NULL in syntax-only mode) handles and "
     "under the hypothesis that the storing parse does not stop on a frame-nesting diagnostic (not well-formed under the options)",
     "C15_all_continue_mirror is proved for every well-formed abstract document over its layout-free token sequence (tokensOf) "
